@@ -227,13 +227,13 @@ Section InstP.
   Qed.
 End InstP.
 
-(* ---- four toy curves (p, a, b, Gx, Gy, n); the first has n > p ---- *)
+(* ---- four toy curves (p, a, b, Gx, Gy, n): n > p, n = p, n < p twice ---- *)
 Definition toy13 := mkCurve 7 0 3 1 2 13.
 Definition toy11 := mkCurve 11 1 5 0 4 11.
-Definition toy29 := mkCurve 23 1 4 0 2 29.
-Definition toy61 := mkCurve 47 1 38 2 1 61.
+Definition toy19 := mkCurve 19 0 2 4 3 13.
+Definition toy23 := mkCurve 23 5 22 3 8 17.
 
-Lemma toy13_ok : curve_ok toy13 = true. Proof. vm_compute. reflexivity. Qed.
-Lemma toy11_ok : curve_ok toy11 = true. Proof. vm_compute. reflexivity. Qed.
-Lemma toy29_ok : curve_ok toy29 = true. Proof. vm_compute. reflexivity. Qed.
-Lemma toy61_ok : curve_ok toy61 = true. Proof. vm_compute. reflexivity. Qed.
+Lemma toy13_ok : curve_ok toy13 = true. Proof. vm_cast_no_check (eq_refl true). Qed.
+Lemma toy11_ok : curve_ok toy11 = true. Proof. vm_cast_no_check (eq_refl true). Qed.
+Lemma toy19_ok : curve_ok toy19 = true. Proof. vm_cast_no_check (eq_refl true). Qed.
+Lemma toy23_ok : curve_ok toy23 = true. Proof. vm_cast_no_check (eq_refl true). Qed.
